@@ -172,3 +172,72 @@ func ZZ_C06_H1() {
 		zz.Assert("param-values-are-matched-substrings", same)
 	}
 }
+
+func zzTryRegister(routes []string) (e *Engine, ok bool) {
+	defer func() {
+		if r := recover(); r != nil {
+			e, ok = nil, false
+		}
+	}()
+	e = zzNewEngine()
+	for _, r := range routes {
+		e.GET(r, func(c context.Context, ctx *app.RequestContext) {})
+	}
+	return e, true
+}
+
+// ZZ_C06_H2: the route strings themselves are symbolic (two routes "/"+ up to R bytes over the
+// alphabet {a b / : * p}), so the tree shape is chosen by the solver; route sets that
+// registration rejects (panics) are outside the property. Both registration orders must agree
+// with the reference rule and with each other for every request path of <= N bytes.
+func ZZ_C06_H2() {
+	rl := zz.Param("R", 3)
+	mk := func(name string) string {
+		n := zz.Range(name+"-len", 1, rl)
+		b := zz.Bytes(name, n)
+		for _, c := range b {
+			zz.Assume(c == 'a' || c == 'b' || c == '/' || c == ':' || c == '*' || c == 'p')
+		}
+		return "/" + string(b)
+	}
+	r1, r2 := mk("route1"), mk("route2")
+	// the pattern that gets registered is the group's absolute path (path.Join semantics:
+	// empty segments are removed, a trailing slash is kept)
+	g := &zzNewEngine().RouterGroup
+	set := []string{g.calculateAbsolutePath(r1), g.calculateAbsolutePath(r2)}
+	zz.Assume(set[0] != set[1])
+	e1, ok1 := zzTryRegister([]string{r1, r2})
+	e2, ok2 := zzTryRegister([]string{r2, r1})
+	zz.Assert("acceptance-independent-of-order", ok1 == ok2)
+	zz.Assume(ok1 && ok2)
+	n := zz.Range("n", 0, zz.Param("N", 3))
+	path := "/" + zz.Str("path", n)
+	ps1 := make(param.Params, 0, 4)
+	ps2 := make(param.Params, 0, 4)
+	v1 := e1.trees.get("GET").find(path, &ps1, false)
+	v2 := e2.trees.get("GET").find(path, &ps2, false)
+	var cands []zzCand
+	for j, s := range set {
+		cands = append(cands, zzCand{j, s, nil})
+	}
+	wi, wv := zzRefMatch(cands, path)
+	zz.Cover("reached-assert", true)
+	zz.Cover("matched", wi >= 0)
+	zz.Assert("same-outcome-in-both-orders", (v1.handlers != nil) == (v2.handlers != nil) && v1.fullPath == v2.fullPath && len(ps1) == len(ps2))
+	if wi < 0 {
+		zz.Assert("no-handler-when-no-pattern-matches", v1.handlers == nil)
+		return
+	}
+	zz.Assert("handler-found", v1.handlers != nil)
+	zz.Assert("full-path-is-registered-pattern", v1.fullPath == set[wi])
+	zz.Assert("param-count", len(ps1) == len(wv))
+	if len(ps1) == len(wv) && len(ps2) == len(wv) {
+		same := true
+		for k := range wv {
+			if ps1[k].Value != wv[k] || ps2[k].Value != wv[k] {
+				same = false
+			}
+		}
+		zz.Assert("param-values-are-matched-substrings", same)
+	}
+}
